@@ -38,18 +38,29 @@ def main():
         for f in ('patch.diff', 'check.py', 'notes.md'):
             if os.path.exists(os.path.join(src, f)):
                 shutil.copy(os.path.join(src, f), os.path.join(dst, f))
+        # helper modules / expected-value files the agent shared between its refactorings
+        for extra_dir in (src, base):
+            for f in os.listdir(extra_dir):
+                fp = os.path.join(extra_dir, f)
+                if os.path.isfile(fp) and f not in ('patch.diff', 'check.py', 'notes.md') and os.path.getsize(fp) < 2_000_000 \
+                        and f.rsplit('.', 1)[-1] in ('py', 'txt', 'json', 'npy', 'npz', 'csv'):
+                    shutil.copy(fp, os.path.join(dst, f))
         patch, chk = os.path.join(dst, 'patch.diff'), os.path.join(dst, 'check.py')
-        if os.path.exists(chk):
-            # the sub-agent's script may pin its own scratch worktree; here it runs against /repo
-            txt = open(chk).read()
-            if wt.rstrip('/') in txt:
-                open(chk, 'w').write(txt.replace(wt.rstrip('/'), '/repo'))
+        # the sub-agent's scripts may pin its own scratch worktree; here they run against /repo, helpers next to check.py
+        w = wt.rstrip('/')
+        for f in os.listdir(dst):
+            if f.endswith('.py'):
+                fp = os.path.join(dst, f)
+                txt = open(fp).read()
+                if w in txt:
+                    txt = txt.replace('%s/_refactor/%s' % (w, x), dst).replace('%s/_refactor' % w, dst).replace(w, '/repo')
+                    open(fp, 'w').write(txt)
         if sh('git -C /repo status --porcelain').stdout.strip():
             print('refusing: /repo not clean')
             return 2
         meta = {'refactoring': name, 'property': prop, 'kind': 'behaviour-preserving refactoring (independent sub-agent)'}
         if os.path.exists(chk):
-            r = sh('cd /repo && PYTHONPATH=/repo /venv/bin/python %s' % chk)
+            r = sh('cd /repo && PYTHONPATH=/repo:%s /venv/bin/python %s' % (dst, chk))
             meta['check_without_patch'] = {'exit': r.returncode, 'out': (r.stdout + r.stderr).strip()[-300:]}
         a = sh('git -C /repo apply --whitespace=nowarn %s' % patch)
         if a.returncode != 0:
@@ -60,7 +71,7 @@ def main():
         meta['applies'] = True
         try:
             if os.path.exists(chk):
-                r = sh('cd /repo && PYTHONPATH=/repo /venv/bin/python %s' % chk)
+                r = sh('cd /repo && PYTHONPATH=/repo:%s /venv/bin/python %s' % (dst, chk))
                 meta['check_with_patch'] = {'exit': r.returncode, 'out': (r.stdout + r.stderr).strip()[-300:]}
             if run_tests:
                 r = sh('/venv/bin/python %s/tools/baseline_check.py' % VERIF)
